@@ -24,7 +24,8 @@ theorem fact_translated_all :
       "cosmoslane_CLVestingMessagesAuthorizationDecorator_AnteHandle",
       "duallane_DLValidateBasicDecorator_AnteHandle", "keeper_msgServer_SubmitProofExternalOwnedAccount",
       "duallane_DLSigVerificationDecorator_AnteHandle", "duallane_DLIncrementSequenceDecorator_AnteHandle",
-      "duallane_DLDeductFeeDecorator_AnteHandle", "keeper_Keeper_IsEmptyAccount", "indexer_TxIndexKey",
+      "duallane_DLDeductFeeDecorator_AnteHandle", "keeper_Keeper_IsEmptyAccount",
+      "keeper_erc20CustomPrecompiledContractRwTransferFrom_transfer", "indexer_TxIndexKey",
       "indexer_parseBlockNumberFromKey", "evmlane_ELValidateBasicEoaDecorator_AnteHandle",
       "evmlane_ELSetupExecutionDecorator_AnteHandle", "evmlane_ELEmitEventDecorator_AnteHandle"] := by
   decide +kernel
@@ -38,6 +39,9 @@ theorem fact_uninterpreted :
       "keeper_msgServer_SubmitProofExternalOwnedAccount: object lit_vauthtypes_ProofExternalOwnedAccount_5084c998 = vauthtypes.ProofExternalOwnedAccount{Account: msg.Account, Hash: \"0x\"+hex.EncodeToString(crypto.Keccak256(*ast.ArrayType(vauthtypes.MessageToSign))), Signature: msg.Signature}",
       "duallane_DLSigVerificationDecorator_AnteHandle: object new_LatestSignerForChainID_ced01bc1 = ethtypes.LatestSignerForChainID(chainID)",
       "keeper_Keeper_IsEmptyAccount: call evmtypes.IsEmptyCodeHash(codeHash)",
+      "keeper_erc20CustomPrecompiledContractRwTransferFrom_transfer: from!=to",
+      "keeper_erc20CustomPrecompiledContractRwTransferFrom_transfer: to==(*ast.CompositeLit)",
+      "keeper_erc20CustomPrecompiledContractRwTransferFrom_transfer: literal 70cc4350 = &ethtypes.Log{Address: contractAddr, Topics: *ast.ArrayType{common.HexToHash(\"0xddf252ad1be2c89b69c2b068fc378daa952ba7f163c4a11628f55a4df523b3ef\"), common.BytesToHash(from.Bytes()), common.BytesToHash(to.Bytes())}, Data: common.BytesToHash(amount.Bytes()).Bytes()}",
       "evmlane_ELValidateBasicEoaDecorator_AnteHandle: object new_BytesToAddress_712e99b6 = common.BytesToAddress(from)",
       "evmlane_ELValidateBasicEoaDecorator_AnteHandle: call evmtypes.IsEmptyCodeHash(codeHash)"] := by
   decide +kernel
